@@ -218,6 +218,9 @@ pub fn check_cfg(cfg: &Cfg, tier: Tier, rep: &mut Report) {
     let mut bound_done: Option<String> = None;
     let mut cas_fail_other = 0u64;
     let mut found: Vec<(String, String, Vec<usize>)> = vec![];
+    // wall-clock cap per configuration (the unbounded search of three-thread programs with
+    // CAS retry loops can run to millions of schedules); a capped bound is reported as such
+    ilv::set_deadline(Some(std::time::Instant::now() + std::time::Duration::from_secs(tier.pick(20, 12))));
     for b in bounds {
         let mut local_found: Vec<(String, String, Vec<usize>)> = vec![];
         let stats = ilv::explore(&spec, b, tier.pick(200_000, 3_000_000), |x, shared, choices| {
@@ -257,7 +260,8 @@ pub fn check_cfg(cfg: &Cfg, tier: Tier, rep: &mut Report) {
         });
         total += stats.schedules;
         if stats.capped {
-            rep.caps.push(format!("{}: schedule cap hit at preemption bound {:?}", cfg.label(), b));
+            // the bounds completed before stay valid and are reported per configuration
+            rep.caps.push(format!("{}: schedule/time cap hit at preemption bound {} (bounds below it were completed)", cfg.label(), b.map_or("unbounded".to_string(), |n| n.to_string())));
             break;
         }
         bound_done = Some(match b {
